@@ -375,6 +375,21 @@ def r106(ctx) -> None:
             if fs in ('frozenset({Seen})', '{Seen}', 'frozenset([Seen])') \
                     and txt(c.args[3]) == 'FlagOp.ADD':
                 ok = True
+    cfgf = cfg_of(f)
+    for n in cfgf.find(lambda n: any(call_name(c) == 'update'
+                                     and len(c.args) >= 4
+                                     for c in n.calls())):
+        conds = [t for t in cfgf.nodes if t.kind == 'test'
+                 and cfgf.controlled_by(n, t, 't')
+                 and isinstance(t.stmt, ast.If)]
+        exact = bool(conds) and all(
+            guard_atoms(t.stmt.test) == [('set_seen', True)] for t in conds)
+        R.check(exact, f, n.stmt, 'fetch: the \\Seen update is controlled by '
+                'set_seen alone',
+                f'the implicit \\Seen update is guarded by '
+                f'{[txt(t.stmt.test) for t in conds]}: deciding from the '
+                f'session\'s CACHED flags skips the update when another '
+                f'session (or maildir client) cleared \\Seen meanwhile')
     R.check(ok, f, f.node, 'fetch adds exactly {\\Seen}',
             'the implicit flag change of a body fetch is not '
             'update(…, {Seen}, FlagOp.ADD)')
